@@ -41,7 +41,10 @@ FIRST_CALLS = [('rate', t, l) for t in (None, 0.0, 0.37) for l in (None, True, F
               [(who + ':' + op, None, None) for who in ('sibling', 'cousin')
                for op in ('rate', 'predict_win', 'predict_draw', 'predict_rank')] + \
               [(who + ':' + op, None, None) for who in ('self=', 'sibling=')
-               for op in ('rate', 'predict_win', 'predict_draw', 'predict_rank')]
+               for op in ('rate', 'predict_win', 'predict_draw', 'predict_rank')] + \
+              [('samelist:' + op, None, None) for op in ('predict_win', 'predict_draw', 'predict_rank')]
+# 'samelist:<op>': the earlier call saw the very same team list objects; their contents are replaced (squad[:] = new ratings) before
+# the later call - anything remembered per list object (id(team), the list itself as a key) is stale by then
 # 'sibling=:<op>' / 'self=:<op>': as above, and the later call sees a CONCRETE game with exactly the (mu, sigma) values of the earlier
 # one on fresh rating objects - the only way to hit a memo keyed by rating values (a symbolic value is unhashable: such a path ends in
 # TypeError and is counted inconclusive)
@@ -199,7 +202,7 @@ def run_hist(key, op, shape, ls0, first, tie, mk):
         same_values = who.endswith('=')
         who = who.rstrip('=')
         other_cfg = dict(beta=3 * 25.0 / 6.0, kappa=0.001, tau=0.5, limit_sigma=not ls0)
-        if who == 'self':
+        if who in ('self', 'samelist'):
             pass
         elif who == 'sibling':
             m1 = Model(**other_cfg)
@@ -229,7 +232,14 @@ def run_hist(key, op, shape, ls0, first, tie, mk):
         mk = H.float_maker(vals)
         if fop != 'rate':
             getattr(m1, fop)([[m1.rating(26.0 + i + j, 5.0 + i) for j in range(n)] for i, n in enumerate(shape)])
-    a = _call(m, op, _mk_teams(m, shape, mk), _ranks_for(shape, tie) if op == 'rate' else None)
+    second = _mk_teams(m, shape, mk)
+    if ':' in first[0] and first[0].startswith('samelist'):
+        held = [[m.rating(22.0 + 2 * i - j, 3.0 + i + j) for j in range(n)] for i, n in enumerate(shape)]
+        getattr(m, fop)(held)
+        for old, new in zip(held, second):
+            old[:] = new
+        second = held
+    a = _call(m, op, second, _ranks_for(shape, tie) if op == 'rate' else None)
     a2 = None
     if op == 'rate':
         out = m.rate(_mk_teams(m, shape, mk), scores=[-r for r in _ranks_for(shape, tie)])
